@@ -416,13 +416,16 @@ def gen_c09(seed, shipped, tier="quick"):
                 sid = "s%d" % len(scanners)
                 scanners.append(sid)
                 ops.append(["new", sid])
-            elif r < 0.93 and cli_keys:
+            elif r < 0.91 and cli_keys:
                 m, ci = rng.choice(cli_keys)
                 ops.append(["cli", m, rng.choice(["stdin", "file"]), ci])
-            elif r < 0.95:
+            elif r < 0.93:
                 ops.append(["gc"])
-            elif r < 0.97:
+            elif r < 0.95:
                 ops.append(["import", rng.choice(MODULES)])
+            elif r < 0.985:
+                # crash point: a scan torn down at an arbitrary line; later results must not care
+                ops.append(["abort_scan", s, i, d, {"seed": rng.randrange(1 << 30), "scope": rng.choice(["engine", "nokw", "nokw", "all"])}])
             else:
                 # a scan of some other input (history), never compared across worlds unless keyed equal
                 ops.append(["scan", s, rng.randrange(ncorp), rng.choice(DEPTHS)])
